@@ -20,8 +20,7 @@ Record mcase := {
   mc_dobs : dobs;                        (* ... of the written poms (declarations present before only) *)
   mc_chain_ok : bool;                    (* harness: Write wrote every pom of the chain *)
   mc_tok_claimed : bool;                 (* harness, token-level part of the domain: no comment inside a <version>,
-                                            no update that adds a dependencyManagement entry, changed properties
-                                            used in dependency versions only *)
+                                            changed properties used in dependency versions only *)
   mc_zero_updates : bool;
   mc_claimed : bool;                     (* harness: its own structural domain (kept as a cross-check of d_full) *)
   mc_panic : bool;
@@ -50,7 +49,7 @@ Definition mcase_in_domain (c : mcase) : bool :=
 (* the declaration-level spec on the implementation's own output *)
 Definition mcase_decl_spec (c : mcase) : bool :=
   match mc_dobs c with
-  | DObsOk o => decl_spec_ok (mc_chain c) (mc_updates c) o
+  | DObsOk o => decl_spec_all (mc_chain c) (mc_updates c) o
   | _ => false
   end.
 
